@@ -179,7 +179,9 @@ public:
     // The converged singular values
     Vector singular_values() const
     {
-        Vector svals = m_eigs->eigenvalues().cwiseSqrt();
+        // The eigenvalues of A'A (or AA') are nonnegative; rounding errors can make a zero
+        // eigenvalue slightly negative, whose square root would be NaN
+        Vector svals = m_eigs->eigenvalues().cwiseMax(Scalar(0)).cwiseSqrt();
 
         return svals;
     }
